@@ -530,3 +530,57 @@ def calls_fixed(ctx):
     else:
         ctx.inconclusive.append("vacuity: nothing read")
     ctx.sample({"paths": E.paths})
+
+
+# ---------------------------------------------------------------------------------------
+# O8: an ASSOCIATE name bound to a function result: the function is invoked once (by the ASSOCIATE statement), however often the name is
+# used or subscripted inside the construct
+# ---------------------------------------------------------------------------------------
+AS_OPEN = [("associate (v => bar(y))", ["bar"]), ("ASSOCIATE (V => BAZ(Y))", ["baz"]), ("associate (v => bar(baz(y)))", ["bar", "baz"]),
+           ("associate (v => arr)", [])]
+AS_USE = [("x = v(1)", []), ("x = v(1) + pick(v(2))", ["pick"]), ("call foo(v(3))", ["foo"]), ("x = V(2) + v(1)", []), ("continue", []),
+          ("x = bar(v(1))", ["bar"])]
+
+
+def replay_assoc_fn(w):
+    return replay_calls({"stmts": w["stmts"], "expected": w["expected"]})
+
+
+@obligation("C08", "O8.associate-name-bound-to-function-result", engine="SX(CV)", timeout=900)
+def assoc_function(ctx):
+    """ASSOCIATE construct whose selector is a symbolic function reference (or an array), with two symbolic statements that use / subscript
+    the associate name: recorded calls = the selector's functions and the procedures invoked in the body, each once"""
+    import ford.sourceform as sf
+
+    ctx.encode_fn(sf.FortranContainer._add_procedure_calls)
+    ctx.encode_text("Associations", __import__("inspect").getsource(sf.Associations), "python-source")
+    ctx.bounds.update({"selectors": len(AS_OPEN), "body statements": len(AS_USE)})
+
+    def h(E):
+        o = CV.choice(E, "open", AS_OPEN)
+        a = CV.choice(E, "s1", AS_USE)
+        b = CV.choice(E, "s2", AS_USE)
+        lines = [o[0], a[0], b[0], "end associate"]
+        h.state = (o, a, b)
+        p = parserh.project({"a.f90": list(MODULE), "b.f90": _caller(lines)}, **PSET)
+        names = _callnames(p)
+        E.reachable("correlated")
+        want = choice.apply(lambda x, y, z: sorted(set(x) | set(y) | set(z)), o[1], a[1], b[1])
+        h.want = want
+        got = choice.apply(lambda *n: sorted(n), *names) if names else []
+        E.require(choice.apply(lambda g, w_: list(g) == list(w_), got, want), "recorded calls differ from the procedures invoked (each once)")
+
+    E = sym.Engine(ctx, max_paths=20000, incremental=True)
+    found = E.explore(h)
+    seen = set()
+    for (label, m, pc), A in list(zip(found, E.autosnaps)):
+        if label in seen:
+            continue
+        seen.add(label)
+        o, a, b = (choice.value_in_model(m, x) for x in A["state"])
+        ctx.report(label, {"stmts": [o[0], a[0], b[0], "end associate"], "expected": choice.value_in_model(m, A["want"])}, replay_assoc_fn)
+    if E.reached.get("correlated"):
+        ctx.twins += 1
+    else:
+        ctx.inconclusive.append("vacuity: correlate never completed")
+    ctx.sample({"paths": E.paths})
